@@ -93,6 +93,17 @@ namespace rkverif {
   }  // namespace c15
 }  // namespace rkverif
 
+namespace rkverif {
+  namespace c15x {
+    // instantiates the move operations of the array type behind BufferWriter::buffer (R-C15-6 reads their bodies)
+    void move_owned(rkcommon::utility::OwnedArray<uint8_t> &a, rkcommon::utility::OwnedArray<uint8_t> &b)
+    {
+      rkcommon::utility::OwnedArray<uint8_t> c(std::move(a));
+      b = std::move(c);
+    }
+  }  // namespace c15x
+}  // namespace rkverif
+
 namespace rkcommon {
   namespace networking {
     // the only element types BufferReader::getView can be instantiated with (the buffer is a byte array)
